@@ -112,6 +112,7 @@ func main() {
 		} else {
 			w = world.New(fmt.Sprintf("C16-%d-%d", si, ri))
 		}
+		w.CRL.Fragment.Store((si+ri)%2 == 1)
 		e := &cellEnv{w: w, sibling: w.Root.Issue(pki.CertOpts{RawSubject: w.Int.Cert.RawSubject, IsCA: true, Key: sibKey}), rng: rand.New(rand.NewSource(run.Seed*131 + int64(si) + int64(ri)*7919)), scratch: scratch, n: ri * 100000}
 		for ci, c := range cells {
 			if ci%sn != si {
